@@ -125,6 +125,8 @@ class BuiltinsMixin:
         self.add_qfact(s, 'dictkeys', inst)
         # ... and every present key sits at some position (Skolem position of the key)
         pos = z3.Function(f'keypos_{self.fresh_counter}_{len(self.keyseq_of)}', Val, smt.I)
+        self.keypos_fn = getattr(self, 'keypos_fn', {})
+        self.keypos_fn[s.get_id()] = pos
         base = arr
         while z3.is_app(base) and base.decl().kind() == z3.Z3_OP_STORE:
             base = base.arg(0)
